@@ -1,6 +1,7 @@
 import CoapVerif.Model.ReplayAbs
 /- Line-protocol driver for C15 (same ops as harness/replay.c).  -/
 -- DRIVER-OPS: replay => Coap.Driver.Replay.replayStep
+-- DRIVER-OPS: replayst => Coap.Driver.Replay.replaystStep
 -- DRIVER-OPS: sender => Coap.Driver.Replay.senderStep
 -- DRIVER-OPS: validate => Coap.Driver.Replay.validateStep
 namespace Coap.Driver.Replay
@@ -12,15 +13,21 @@ def showVerdict : Verdict → String
 def showState (r : Recip) : String :=
   (if r.init then "1" else "0") ++ "," ++ toString r.last ++ "," ++ toString r.win
 
-def parseEv (w : String) : Option Ev :=
+/-- `a/e/w/x<piv>` requests, `n<piv>` authentic notification with its own Partial IV, `y<piv>` forged response claiming
+one, `r<k>` / `z<k>` authentic / forged response without Partial IV (same letters as harness/replay.c). -/
+def parseEv (w : String) : Option Msg :=
   match w.toList with
   | k :: rest =>
     match (String.ofList rest).toNat? with
     | some p =>
-      if k = 'a' then some ⟨true, p, .none⟩
-      else if k = 'e' then some ⟨true, p, .good⟩
-      else if k = 'w' then some ⟨true, p, .bad⟩
-      else if k = 'x' then some ⟨false, p, .none⟩
+      if k = 'a' then some (.req ⟨true, p, .none⟩)
+      else if k = 'e' then some (.req ⟨true, p, .good⟩)
+      else if k = 'w' then some (.req ⟨true, p, .bad⟩)
+      else if k = 'x' then some (.req ⟨false, p, .none⟩)
+      else if k = 'n' then some (.rsp ⟨true, some p⟩)
+      else if k = 'y' then some (.rsp ⟨false, some p⟩)
+      else if k = 'r' then some (.rsp ⟨true, none⟩)
+      else if k = 'z' then some (.rsp ⟨false, none⟩)
       else none
     | none => none
   | [] => none
@@ -38,15 +45,15 @@ def showOut : ReplaySpec.Out → String
 def showAllowed (l : List ReplaySpec.Out) : String := String.intercalate "/" (l.map showOut)
 
 /-- M's verdict and state after every event, and the outcomes S allows at that point (the monitor follows M). -/
-def replayLoop (cfg : Cfg) : Recip → ReplaySpec.St → List Ev → List String × List String
+def replayLoop (cfg : Cfg) : Recip → ReplaySpec.St → List Msg → List String × List String
   | _, _, [] => ([], [])
   | r, s, e :: es =>
-    let x := recv cfg r e
-    let al := ReplaySpec.allowed cfg.window s (reqOf e)
+    let x := step cfg r e
+    let al := ReplaySpec.allowed cfg.window s (msgOf e)
     let m := showVerdict x.2 ++ ":" ++ showState x.1
     if x.2 = .ub then ([m], [showAllowed al])
     else
-      let t := replayLoop cfg x.1 (ReplaySpec.next s (reqOf e) (outOf x.2)) es
+      let t := replayLoop cfg x.1 (ReplaySpec.next s (msgOf e) (outOf x.2)) es
       (m :: t.1, showAllowed al :: t.2)
 
 def replayStep (args : List String) : String :=
@@ -59,6 +66,20 @@ def replayStep (args : List String) : String :=
       let t := replayLoop cfg Recip.fresh (ReplaySpec.St.start cfg.b12) evs
       "M " ++ String.intercalate " " t.1 ++ " | S " ++ String.intercalate " " t.2
     | _, _, _ => "bad-op"
+  | _ => "bad-op"
+
+/-- `replayst <window> <b12> <init> <last> <win> <ev>…`: M from an arbitrary recipient state (no monitor: S speaks
+about histories of a fresh context). -/
+def replaystStep (args : List String) : String :=
+  match args with
+  | w :: b :: i :: l :: win :: evs =>
+    match w.toNat?, b.toNat?, i.toNat?, l.toNat?, win.toNat?, parseAll parseEv evs with
+    | some w, some b, some i, some l, some win, some evs =>
+      let cfg : Cfg := { window := if w = 0 then 32 else w, b12 := b ≠ 0 }
+      let r : Recip := { Recip.fresh with init := i ≠ 0, last := l, win := win }
+      let t := replayLoop cfg r (ReplaySpec.St.start cfg.b12) evs
+      "M " ++ String.intercalate " " t.1
+    | _, _, _, _, _, _ => "bad-op"
   | _ => "bad-op"
 
 def parseSOp (w : String) : Option SOp :=
